@@ -71,9 +71,47 @@ def rebuild(base, entries):
             os.symlink(sub_base(t, base), full)
 
 
+def overlaps(rels):
+    return any(i != j and (b + "/").startswith(a + "/") for i, a in enumerate(rels) for j, b in enumerate(rels))
+
+
+def overlapping_roots(rng, real_dirs, out_dirs):
+    """2-4 code-base directories (base-relative canonical names) of which at least two are equal or nested: a directory
+    and one of its parents in either order, a directory listed twice or three times, chains of three nested
+    directories, and any of these next to unrelated directories (siblings, `out`)"""
+    r = rng.random()
+    inner = rng.choice(real_dirs)
+    if r < 0.3:
+        return list(rng.choice([["t", inner], [inner, "t"], ["t", "t"], [inner, inner]]))
+    if r < 0.45:
+        # a chain: every prefix directory of a deepest directory, shuffled
+        deep = max(real_dirs, key=lambda d: (d.count("/"), rng.random()))
+        parts = deep.split("/")
+        chain = ["/".join(parts[:i]) for i in range(1, len(parts) + 1)]
+        rng.shuffle(chain)
+        return chain[:4] if len(chain) >= 2 else ["t", "t"]
+    for _ in range(50):
+        rels = [rng.choice(real_dirs + out_dirs) for _ in range(rng.randint(2, 4))]
+        if overlaps(rels):
+            return rels
+    return [inner, "t", inner]
+
+
 def gen_case(rng, base, stream):
     """Create a tree below base and choose cwd / roots / patterns / queries.  Returns the description."""
-    fstree.gen_tree(rng, base, loops=(stream == "loops"))
+    tree_dirs = fstree.gen_tree(rng, base, loops=(stream == "loops"))
+    prefix_sibling = None
+    if stream == "nested" and rng.random() < 0.25:
+        # a directory NEXT to a listed directory whose name continues that directory's name (`sub`, `sub-old`): inside
+        # by characters, not by components - it is a code-base directory of its own and must be walked
+        d = rng.choice(tree_dirs)
+        sib = d + rng.choice(["2", "-old", "x", ".c"])
+        if not os.path.lexists(os.path.join(base, sib)):
+            os.makedirs(os.path.join(base, sib))
+            for nm in rng.sample(["p.c", "q.h", "r s.cpp", "notes.txt"], rng.randint(1, 3)):
+                with open(os.path.join(base, sib, nm), "w") as f:
+                    f.write("int sibling;\n")
+            prefix_sibling = [d, sib]
     entries = fstree.scan(base)
     real_dirs = ["t"] + [r for r, k, t in entries if k == "d" and r.startswith("t/")]
     aliases = fstree.dir_aliases(base, entries)
@@ -82,9 +120,26 @@ def gen_case(rng, base, stream):
     cwd = os.path.join(base, cwd_rel) if cwd_rel else base
     # --- roots
     r = rng.random()
-    if stream == "nested":
-        inner = rng.choice(real_dirs)
-        root_rels = rng.choice([["t", inner], [inner, "t"], ["t", "t"]])
+    linked_roots = None
+    if stream == "nested" and prefix_sibling is not None:
+        root_rels = list(prefix_sibling)
+        if rng.random() < 0.5:
+            root_rels.append(rng.choice(root_rels + ["t"]))
+        rng.shuffle(root_rels)
+    elif stream == "nested":
+        root_rels = overlapping_roots(rng, real_dirs, [r for r, k, t in entries if k == "d" and (r == "out" or r.startswith("out/"))])
+        # a directory listed through a symbolic link that resolves to it (or to a directory around / inside it)
+        al = [(real, a) for real, links in sorted(aliases.items()) for a in links if real == base + "/t" or real.startswith(base + "/t/")]
+        if al and rng.random() < 0.4:
+            real, a = rng.choice(al)
+            rel = real[len(base) + 1:]
+            other = rng.choice([rel, rel, os.path.dirname(rel) or rel, "t"] + [d for d in real_dirs if d.startswith(rel + "/")])
+            linked_roots = [os.path.join(base, other), a]
+            if rng.random() < 0.5:
+                linked_roots.reverse()
+            if rng.random() < 0.3:
+                linked_roots.append(rng.choice(linked_roots))
+            root_rels = [os.path.realpath(x)[len(base) + 1:] for x in linked_roots]
     elif r < 0.55:
         root_rels = ["t"]
     elif r < 0.7 and len(real_dirs) > 1:
@@ -97,9 +152,13 @@ def gen_case(rng, base, stream):
     else:
         root_rels = ["t/does_not_exist"]
     roots = []
-    for rr in root_rels:
+    for i, rr in enumerate(root_rels):
         ab = os.path.join(base, rr)
-        sp = rng.choice(fstree.spellings(rng, base, ab, cwd, aliases, subdirs, n=2))
+        if linked_roots is not None:
+            # the link itself is the spelling (absolute, or relative to the working directory)
+            sp = rng.choice([linked_roots[i], os.path.relpath(linked_roots[i], cwd)])
+        else:
+            sp = rng.choice(fstree.spellings(rng, base, ab, cwd, aliases, subdirs, n=2))
         roots.append(sp if sp else ".")
     # --- patterns: built from what lies below the first root
     relfiles, reldirs = [], []
@@ -164,6 +223,26 @@ class Env:
             return (lp in self.cbmod.CodeBase(d)) is False
         except RuntimeError:
             return False
+
+
+def walk_blocks(raw, walk):
+    """the walked directories in the order in which the enumeration visits them; None if a path lies below none of them
+    or a directory is returned to after another one was started"""
+    seq = []
+    for x in raw:
+        w = next((r for r in walk if x.startswith(r.rstrip("/") + "/")), None)
+        if w is None:
+            return None
+        if not seq or seq[-1] != w:
+            if w in seq:
+                return None
+            seq.append(w)
+    return seq
+
+
+def is_subsequence(a, b):
+    it = iter(b)
+    return all(any(x == y for y in it) for x in a)
 
 
 def impl_contains(cb, q, as_path):
@@ -298,8 +377,10 @@ def eval_case(ctx, drv, env, base, desc, origin):
 
         # ---------- enumeration
         try:
+            impl_raw = None
             with time_limit(ITER_LIMIT):
-                impl_iter = sorted(cb)
+                impl_raw = list(cb)
+                impl_iter = sorted(impl_raw)
         except IterTimeout:
             impl_iter = f"EXC:no result within {ITER_LIMIT} s"
         except RuntimeError as e:
@@ -329,11 +410,15 @@ def eval_case(ctx, drv, env, base, desc, origin):
         ctx.count(key="iter:" + ("loop" if has_loop else "nested" if nested else "plain"))
         if spec_iter:
             ctx.nontrivial.add(("iter", origin))
+        # members that lie below two listed directories (equal or nested): the shape of F-C09-NEST
+        twice = [x for x in spec_iter if sum(1 for R in rroots if os.path.realpath(x).startswith(R + "/") or x.startswith(R + "/")) >= 2]
+        if twice:
+            ctx.count(key="iter:member-below-several-listed-directories")
+            ctx.nontrivial.add(("iter-overlap", origin))
         if not skip_iter and impl_iter != spec_iter:
             what = f"list(CodeBase({roots!r}, exclude_patterns={pats!r})) = {impl_iter}, the members are {spec_iter}"
             ctx.classify(case, what, [
                 ("D18", lambda c: impl_iter == "EXC:RuntimeError" and has_loop),
-                ("F-C09-NEST", lambda c: nested and isinstance(impl_iter, list) and sorted(set(impl_iter)) == spec_iter),
                 ("F-C09-K", lambda c: escaping and isinstance(impl_iter, list) and set(spec_iter) <= set(impl_iter)
                  and all(os.path.islink(x) and fstree.os_resolve(x)[0] in ("enoent", "enotdir") for x in set(impl_iter) - set(spec_iter))),
             ])
@@ -374,6 +459,14 @@ def eval_case(ctx, drv, env, base, desc, origin):
                 mi = "EXC:RuntimeError" if mi == "loop" else sorted(mi)
                 if mi != impl_iter:
                     ctx.corr_break("codebase.iter", case, impl_iter, mi)
+                # the ORDER of the enumeration: one block per walked directory, the blocks in the order of `CB.walkRoots`
+                # (first occurrence of a directory listed several times, nothing for a directory inside another one)
+                if isinstance(impl_iter, list) and impl_raw is not None and isinstance(rep.get("walk"), list):
+                    ctx.count(key=f"iter:walked={min(len(rep['walk']), 3)}of{min(len(roots), 4)}")
+                    blocks = walk_blocks(impl_raw, rep["walk"])
+                    if blocks is None or not is_subsequence(blocks, rep["walk"]):
+                        ctx.corr_break("codebase.walk", case, {"enumeration": impl_raw, "blocks": blocks}, {"walk": rep["walk"]})
+                out["model"]["walk"] = rep.get("walk")
                 out["model"]["queries"] = rep["queries"]
             # the same model with the pattern semantics INSIDE (cfg.ignored := GitIgnore.ignoredStr patterns): what
             # `member_iff_gitignore` / `iter_exact_gitignore` are about.  Compared with the implementation wherever
@@ -587,14 +680,16 @@ def repeat_lines(rng, pats):
 # --------------------------------------------------------------------------
 def streams(ctx):
     n = ctx.n(380, 4500)
-    return [("main", n), ("loops", max(6, n // 8)), ("nested", max(6, n // 10)), ("escape", max(6, n // 10))]
+    return [("main", n), ("loops", max(6, n // 8)), ("nested", max(6, n // 7)), ("escape", max(6, n // 10))]
 
 
 def run(ctx, drv):
     cbmod = core.import_codebasin()
     ctx.rule = ("case = random tree (nested directories, source / non-source / case-variant extensions, names with blanks and glob "
-                "metacharacters, file and directory symlinks, chains, dangling links; separate streams with link loops, nested roots, "
-                "'..' over non-directories) x random gitignore list x working directory x root spellings; every entry queried under "
+                "metacharacters, file and directory symlinks, chains, dangling links; separate streams with link loops, OVERLAPPING roots "
+                "(a directory listed two or three times, under its name and through a symbolic link, with a parent before or after it, "
+                "chains of nested directories, mixed with unrelated ones, a sibling whose name continues a listed directory's name; the "
+                "order of the enumeration is compared with the model's walk order), '..' over non-directories) x random gitignore list x working directory x root spellings; every entry queried under "
                 "several spellings. Non-trivial = distinct (case, spelling) whose spelling is not the canonical path of an existing "
                 "object, plus distinct (case, file) that git ignores under a non-empty list, plus cases with a non-empty enumeration.")
     ctx.rule += (" Pattern-focused part: every list of 1-3 patterns built from the atoms of harness/gen/gipat.py (exhaustive up to 2 (quick) / 3 "
@@ -627,7 +722,9 @@ def run(ctx, drv):
         "match nothing for git and the reference and are rejected by pathspec with an exception (counted as patterns:rejected-ill-formed)",
         "file systems contain regular files, directories and symbolic links only; link chains stay below the kernel's 40-link limit",
         "code-base directories are directories or do not exist (a regular file given as a directory is not generated)",
-        "with several directories, 'that directory' is read as the first listed directory that contains the file",
+        "with several directories, 'that directory' is read as the first listed directory that contains the file; the listed directories "
+        "may be equal (also: one listed under its name and through a symbolic link), nested in either order, chains of three, and "
+        "mixed with unrelated ones (stream `nested`): every member must be enumerated exactly once (F-C09-NEST repaired)",
         "the model sees a spelling after pathlib's normalisation (empty and '.' components dropped): the OS's ENOTDIR for a "
         "trailing '/' or '/.' behind a regular file is checked on the implementation (recorded class F-C09-K) but not modelled",
         "recognised extension = extension after the last dot of the final component (the dot neither first nor last character) "
